@@ -283,7 +283,8 @@ func c15Overlay(src *tree.Tree, srcRoot tree.Entry, dst *tree.Tree, srcArg, dstA
 		Origin: map[string]string{}, LandedN: map[string]int{}, Disturbed: map[string]bool{}}
 	// rule 1: the directory part of dst (all of it when it ends in a separator)
 	ensure := dstArg
-	if d, f := path.Split(dstArg); f != "" && f != "." {
+	if d, f := path.Split(dstArg); f != "" && f != "." && f != ".." {
+		// ("x/.." names a directory as much as "x/../" does)
 		ensure = d
 	}
 	if ensure != "" && !m.mkdirAll(cleanRel(ensure)) {
@@ -540,6 +541,11 @@ func c15Args(r *core.Rand, src, dst *tree.Tree) (srcArg, dstArg string, wild boo
 	}
 	if dstArg != "" && dstArg != "." && !strings.HasSuffix(dstArg, "/") && r.P(1, 3) {
 		dstArg += "/"
+	}
+	if dstArg != "" && dstArg != "." && !strings.HasSuffix(dstArg, "/") && r.P(1, 14) {
+		// the same directory spelled through a name that does not exist and
+		// the way back: nothing called zz9 may appear
+		dstArg += "/zz9/.."
 	}
 	return
 }
@@ -976,6 +982,9 @@ func c15Run(c *core.Ctx) *core.Result {
 		if len(m.Disturbed) > 0 && m.Any == "" && !m.Err {
 			r.Count("cases_link_group_image_overwritten_during_call", 1)
 		}
+	}
+	if strings.HasSuffix(dstArg, "/..") {
+		r.Count("dst_ending_in_dotdot", 1)
 	}
 	if strings.HasSuffix(dstArg, "/") {
 		r.Count("dst_with_trailing_separator", 1)
